@@ -14,7 +14,7 @@ from __future__ import annotations
 
 from .interp import Hooks, Interp, _Raise, explore
 from .model import AnalysisError, Program
-from .values import Const, Dct, ExcV, Lst, NodeV, Obj, Str, Sym, Tup, tagof
+from .values import ClsRef, Const, Dct, ExcV, Lst, NodeV, Obj, Str, Sym, Tup, tagof
 
 CURSOR = ("cursor", "FakeSnowflakeCursor")
 
@@ -307,6 +307,39 @@ def R():
     return roles(_PROG if _PROG is not None else Program())
 
 
+def _new_variables() -> Obj:
+    """the connection's Variables object as its own constructor builds it (whatever container it keeps the variables in)"""
+    from .interp import Hooks as _H, Interp as _I
+    from .model import Program
+    prog = _PROG if _PROG is not None else Program()
+    if "variables" in prog.modules and "Variables" in prog.modules["variables"].classes:
+        v = _I(prog, _H(), []).construct(ClsRef("fakesnow.variables.Variables"), [], {}, None)
+        if isinstance(v, Obj):
+            v.name = "vars"
+            return v
+    return Obj("vars", cls=("variables", "Variables"), **{R().variables: Dct()})
+
+
+def define_variables(conn: Obj, mapping: dict) -> None:
+    """Give the session the variables of `mapping` (name -> abstract value text): written straight into the mapping when the
+    Variables object keeps a dict, through its own SET handling otherwise."""
+    from .interp import Hooks as _H, Interp as _I
+    from .model import Program
+    vars_obj = conn.attrs["variables"]
+    store = vars_obj.attrs.get(R().variables)
+    if isinstance(store, Dct) or store is None:
+        vars_obj.attrs[R().variables] = Dct(dict(mapping))
+        return
+    prog = _PROG if _PROG is not None else Program()
+    sandbox = _I(prog, _H(), [])
+    for k, val in mapping.items():
+        col = NodeV("Column", {"this": NodeV("Identifier", {"this": Const(k), "quoted": Const(False)}, name=f"id:{k}", open=False)},
+                    name=f"col:{k}", open=False)
+        value = val if isinstance(val, NodeV) else lit(val.v if isinstance(val, Const) else val, False)
+        st = node("Set", "stmt", unset=Const(False), tag=Const(False), expressions=Lst([node("SetItem", this=node("EQ", this=col, expression=value))]))
+        sandbox.call(sandbox.getattr(vars_obj, "update_variables"), [st], {}, None)
+
+
 def make_session(database_set=None, schema_set=None, db_path=False):
     r = R()
     duck = Obj("duck", kind="duck")
@@ -317,7 +350,7 @@ def make_session(database_set=None, schema_set=None, db_path=False):
         database_set=Const(True) if database_set is None else Const(database_set),
         schema_set=Const(True) if schema_set is None else Const(schema_set),
         db_path=Sym("DB_PATH", typ="path", truthy=True) if db_path else Const(None), nop_regexes=Const(None),
-        variables=Obj("vars", cls=("variables", "Variables"), **{r.variables: Dct()}),
+        variables=_new_variables(),
         **{r.paramstyle: Const("pyformat"), r.conn_duck: duck},
     )
     cur = Obj("cur", cls=CURSOR, **{
@@ -428,7 +461,7 @@ def run_execute(prog: Program, kind: str, mode: str | None, params=None, paramst
         conn.attrs[R().paramstyle] = Const(paramstyle)
         conn.attrs["nop_regexes"] = nop_regexes if nop_regexes is not None else Const(None)
         if variables:
-            conn.attrs["variables"].attrs[R().variables] = Dct(variables)
+            define_variables(conn, variables)
         cur.attrs[R().sqlstate] = Const(old_sqlstate)
         sessions.append((conn, cur))
         return I.call(I.getattr(cur, entry), [Sym("COMMAND", typ="str", truthy=True), params if params is not None else Const(None)], {}, None)
